@@ -21,4 +21,34 @@ func registerAll() {
 			"contract violations (negative n, over-release) and WaitEmpty are outside the property and not generated"},
 		components: map[string]string{"semaphore.Weighted": "real code (source-rewritten at build time: sync.Mutex, channels, select -> simulator seams)", "callers": "simulated clients", "clock": "testing/synctest fake clock", "goroutine scheduling": "simulator (config sem) / Go runtime (config sem-race)"},
 	}
+
+	// ---- engine udp ----
+	builds["udp"] = &build{name: "udp", pkg: modPath + "/pkg/rpc/udp", harness: []string{"udp/zz_verif_udp_test.go"}}
+	udpComponents := map[string]string{
+		"connection state machines, handshake/generation logic, sliding windows, AcksToSend, datagram build/parse (AES-IGE, CRC32C), memory accounting, timer queues, algo.TreeMap/CircularSlice": "real code (unmodified)",
+		"the eight Transport goroutine loops": "stub: engine-owned step functions mirroring one iteration of goWrite/goRead/goResend/goAck/goResendRequest/goRegenerate line by line (timers fire at their deadline on the fake clock); goSend/goReceive are the datagram bag",
+		"UDP socket":                          "stub: per-node datagram bag owned by the simulator (drop, duplicate, reorder, corrupt, delay)",
+		"clock":                               "testing/synctest fake clock (resend deadlines order the timer heap)",
+		"crypto/rand":                         "testing/cryptotest.SetGlobalRandom (seeded)",
+	}
+	properties["C36"] = &property{id: "C36", engine: "udp", level: "exploration",
+		configs: []config{
+			{name: "udp-faults", build: "udp", params: map[string]any{"mode": "norestart", "focus": "C36"}, quick: tierCfg{wallSec: 22, detPct: 2}, thorough: tierCfg{wallSec: 900, detPct: 1}},
+			{name: "udp-faultfree", build: "udp", params: map[string]any{"mode": "norestart", "focus": "C36", "fault_free": true}, quick: tierCfg{wallSec: 6, detPct: 2}, thorough: tierCfg{wallSec: 200, detPct: 1}},
+			{name: "udp-restart", build: "udp", params: map[string]any{"mode": "restart", "focus": "C36"}, quick: tierCfg{wallSec: 12, detPct: 2}, thorough: tierCfg{wallSec: 600, detPct: 1}},
+		},
+		rule: "each evaluation is one simulated run: 2..6 real udp.Transport nodes, 1..40 unique messages, per-run knobs (MaxChunkSize 8..64, memory limit 1..4 max messages, stream-like delivery on/off) and a seeded event sequence (submit, write/read/enc-header steps with a chosen datagram = reordering, timer expirations, clock jumps, datagram drop/duplicate/corrupt; config udp-restart adds regenerate-timer expiry) with a per-run random subset of fault kinds; after every event the transport's own invariant checker, memory limit, prefix monotonicity and the exactly-once/intact delivery oracle run; then a fault-free settle phase with a total round bound, exact multiset equality, memory fully released, allocator balanced (udp-restart: memory balance, invariants, no panic only). Non-trivial = at least one fault actually fired and at least one message was delivered; distinct = distinct event-log hash.",
+		assumptions: []string{stdAssume, "the goroutine loops of Transport.Run, real sockets and sendmmsg paths are not exercised (the property is stated over the step simulator)",
+			"timer expirations are events that may fire at any time, as in the repository's simulator", "C37-class findings made in these runs are reported by the C37 check, not here"},
+		components: udpComponents,
+	}
+	properties["C37"] = &property{id: "C37", engine: "udp", level: "exploration",
+		configs: []config{
+			{name: "udp-acks-monitor", build: "udp", params: map[string]any{"mode": "norestart", "focus": "C37"}, quick: tierCfg{wallSec: 15, detPct: 2}, thorough: tierCfg{wallSec: 600, detPct: 1}},
+			{name: "udp-acks-direct", build: "udp", params: map[string]any{"mode": "acks", "focus": "C37"}, quick: tierCfg{wallSec: 6, detPct: 2}, thorough: tierCfg{wallSec: 200, detPct: 1}},
+		},
+		rule: "config udp-acks-monitor: the same faulty multi-node runs as C36; the harness sees every enc header handed to a writer (hence every AddAckRange the next write step performs) and after each write step compares the connection's AcksToSend with a reference interval set: represented set == union of recorded ranges, shape prefix + sorted/disjoint/non-adjacent ranges, BuildAck acknowledges only members, BuildNegativeAck requests only non-members — the histories are those that loss, duplication and reordering actually produce. config udp-acks-direct: the same checks on a bare AcksToSend fed seeded range sequences over domains of <=64 numbers at 0, mid-range and just below 2^32-1 (no wrap); this part has no fault or schedule in it. Non-trivial = a fault fired and a message was delivered (monitor) / >2 ranges or a hole (direct); distinct = distinct event-log hash.",
+		assumptions: []string{stdAssume, "sequence-number wrap-around is excluded, as the property states"},
+		components:  udpComponents,
+	}
 }
